@@ -12,7 +12,7 @@ def cfg_for(dialect, **over):
     return _CFG[key]
 
 
-def lex_and_parse(dialect, sql, capture_root_match=False):
+def lex_and_parse(dialect, sql, capture_root_match=False, parse_statistics=False):
     """Returns dict(tokens, tree, lex_errors, parse_errors, exc, root) using the linter's own static steps."""
     from sqlfluff.core import Linter
     from sqlfluff.core.templaters.base import TemplatedFile
@@ -40,7 +40,7 @@ def lex_and_parse(dialect, sql, capture_root_match=False):
             tokens, lex_vs = Linter._lex_templated_file(tf, cfg)
             out["tokens"], out["lex_errors"] = tokens, lex_vs
             if tokens is not None:
-                tree, parse_vs = Linter._parse_tokens(tokens, cfg, fname="t.sql")
+                tree, parse_vs = Linter._parse_tokens(tokens, cfg, fname="t.sql", parse_statistics=parse_statistics)
                 out["tree"], out["parse_errors"] = tree, parse_vs
         except BaseException as e:  # noqa
             import traceback
@@ -137,9 +137,11 @@ def mr_to_coq(m, cls_ids, meta_ids, budget):
     return "(MR %d %d %s %s %s)" % (m.matched_slice.start, m.matched_slice.stop, c, ins, ch)
 
 
-def parse_case(dialect, label, sql, want_cert):
+def parse_case(dialect, label, sql, want_cert, parse_statistics=False):
     """-> dict(label, c02:[...], c03:[...], exc, ntokens, unparsable, cert: None | (coq term, n, real leaf index list))"""
-    r = lex_and_parse(dialect, sql, capture_root_match=want_cert)
+    import logging
+    logging.disable(logging.CRITICAL)
+    r = lex_and_parse(dialect, sql, capture_root_match=want_cert, parse_statistics=parse_statistics)
     out = {"exc": r["exc"], "exc_type": r.get("exc_type"), "exc_frame": r.get("exc_frame"), "c02": [], "c03": [], "ntokens": len(r["tokens"] or []),
            "unparsable": None, "cert": None, "fatal_prs": False, "lxr": len(r["lex_errors"])}
     if r["exc"]:
